@@ -96,6 +96,8 @@ def space(tier):
                     for fmt in ("bam", "fastq", "fastq.gz", "fq", "fq.gz"):
                         if fmt == "fastq.gz" and not (T or len(names) == 2):
                             continue
+                        if len(names) == 4 and fmt != "bam":
+                            continue  # four reads (thorough tier): BAM only, two list formats (the full product takes > 1 h)
                         if fmt in ("fq", "fq.gz") and not (len(names) == 2 and ploidy == 2 and not zextra and (T or assign[0] != "absent")):
                             continue  # the other documented FASTQ file names, on a slice
                         if fmt == "fastq" and not T and len(names) == 3 and zextra:
@@ -109,6 +111,8 @@ def space(tier):
                                 continue  # all reads of one length: histogram rows shared between outputs
                             for cols, header in ((2, False), (2, True), (4, True), (4, False)):
                                 if not T and (cols, header) in ((2, True), (4, False)) and len(names) == 3:
+                                    continue
+                                if len(names) == 4 and (cols, header) in ((2, True), (4, False)):
                                     continue
                                 if lp == 2 and not T and (cols, header) != (2, False):
                                     continue
@@ -126,7 +130,7 @@ def option_vectors(ploidy, names, assign, zextra, fmt, lp, cols, header, T):
     nout = ploidy + 1
     # requested outputs: all; all but untagged; only h1; untagged + last
     req_sets = [tuple([True] * nout), tuple([False] + [True] * ploidy), tuple([False, True] + [False] * (ploidy - 1)), tuple([True] + [False] * (ploidy - 1) + [True])]
-    if T:
+    if T and len(names) < 4:
         req_sets = [r for r in itertools.product((False, True), repeat=nout) if any(r[1:])]
     style = "h12" if ploidy == 2 else "o"
     for req in req_sets:
